@@ -36,8 +36,9 @@ func checkC11(c *Ctx) {
 	minL, _ := c.ConstVal(CorePath, "_minLevel")
 	maxL, _ := c.ConstVal(CorePath, "_maxLevel")
 	var get, inc, inner *ssa.Call
+	var inners []*ssa.Call
 	var hooks []*ssa.Call
-	for _, cl := range Calls(fn) {
+	for _, cl := range CallsDeep(fn) {
 		call, _ := cl.(*ssa.Call)
 		switch {
 		case IsCallTo(cl, "(*go.uber.org/zap/zapcore.counters).get"):
@@ -46,6 +47,7 @@ func checkC11(c *Ctx) {
 			inc = call
 		case IsCallTo(cl, "(go.uber.org/zap/zapcore.Core).Check"):
 			inner = call
+			inners = append(inners, call)
 		default:
 			if call != nil && Desc(call.Call.Value) == "s.hook" {
 				hooks = append(hooks, call)
@@ -92,7 +94,14 @@ func checkC11(c *Ctx) {
 		c.Check(ok1 && outer.Len() == maxL-minL+1 && innerLen == cpl, "R11.1", CorePath+".counters", "dimensions", cs.Obj().Pos(), "the table has %d level rows (= _maxLevel − _minLevel + 1 = %d) and %d buckets (= _countersPerLevel)", outer.Len(), maxL-minL+1, innerLen)
 	}
 	// out-of-range levels go straight to Core.Check: inner is reachable when range guard fails
-	c.Check(Strip(Args(inner)[1]) == ssa.Value(fn.Params[1]) && Strip(Args(inner)[2]) == ssa.Value(fn.Params[2]) && hasAll(inner, en) && !hasAll(inner, lo), "R11.1", name, "out-of-range-pass-unsampled", inner.Pos(), "Core.Check(ent, ce) is reached for every enabled entry not dropped, including out-of-range levels")
+	okInner, outOfRange := true, false
+	for _, in := range inners {
+		okInner = okInner && Strip(Args(in)[1]) == ssa.Value(fn.Params[1]) && Strip(Args(in)[2]) == ssa.Value(fn.Params[2]) && hasAll(in, en)
+		if !hasAll(in, lo) || !hasAll(in, hi) {
+			outOfRange = true
+		}
+	}
+	c.Check(okInner && outOfRange, "R11.1", name, "out-of-range-pass-unsampled", inner.Pos(), "Core.Check(ent, ce) is reached for every enabled entry not dropped, including out-of-range levels")
 
 	// ---------------- R11.2 ----------------
 	dropped, _ := c.ConstVal(CorePath, "LogDropped")
@@ -112,7 +121,17 @@ func checkC11(c *Ctx) {
 		return
 	}
 	is := func(x *ssa.Call) func(ssa.Instruction) bool {
-		return func(i ssa.Instruction) bool { return i == ssa.Instruction(x) }
+		return func(i ssa.Instruction) bool {
+			if x == inner {
+				for _, in := range inners {
+					if i == ssa.Instruction(in) {
+						return true
+					}
+				}
+				return false
+			}
+			return i == ssa.Instruction(x)
+		}
 	}
 	either := func(i ssa.Instruction) bool { return i == ssa.Instruction(hd) || i == ssa.Instruction(hs) }
 	c.Check(!ExistsPath(fn, inc, IsReturn, either), "R11.2", name, "hook-on-every-decision", inc.Pos(), "every path from the counter update to a return calls the hook")
@@ -132,7 +151,7 @@ func checkC11(c *Ctx) {
 	N := Desc(inc)
 	F, T := "s.first", "s.thereafter"
 	var rem *ssa.BinOp
-	AllInstrs(fn, func(i ssa.Instruction) {
+	InstrsDeep(fn, func(i ssa.Instruction) {
 		if b, ok := i.(*ssa.BinOp); ok && (b.Op == token.REM || b.Op == token.QUO) {
 			rem = b
 		}
@@ -140,7 +159,11 @@ func checkC11(c *Ctx) {
 	if rem == nil {
 		c.Bad("R11.4", name, "modulo", fn.Pos(), "no modulo operation found")
 	} else {
-		c.Check(hasAll(rem, T+" != 0") && Desc(rem.Y) == T, "R11.4", name, "no-division-by-zero", rem.Pos(), "(n − first) %% thereafter is evaluated only where thereafter ≠ 0 was established (guards %v)", AtomStrings(Guards(rem)))
+		remY := ""
+		Bound(func() { remY = Desc(rem.Y) })
+		hasT := false
+		Bound(func() { hasT = hasAll(rem, T+" != 0") })
+		c.Check(hasT && remY == T, "R11.4", name, "no-division-by-zero", rem.Pos(), "(n − first) %% thereafter is evaluated only where thereafter ≠ 0 was established (guards %v)", AtomStrings(Guards(rem)))
 	}
 	common := map[string]bool{en: true, lo: true, hi: true}
 	norm := func(b *ssa.BasicBlock) []string {
@@ -166,7 +189,7 @@ func checkC11(c *Ctx) {
 	}
 	sort.Strings(wantDrop)
 	wantKeep := []string{
-		N + " <= " + F,
+		F + " >= " + N,
 		strings.Join(sortedS(N+" > "+F, T+" != 0", modEQ), " ∧ "),
 	}
 	sort.Strings(wantKeep)
